@@ -427,6 +427,41 @@ def _linear(repo, rep):
     rep.check("cached = self.cache.get(expression)" in text, "R04.4",
               f.qualname, "the cache is keyed by the expression node",
               construct="cache-key", where=L.where(f))
+    # one cache object: the Compiler (visit_Cache stores) and the
+    # ExpressionTransform (lookups) must see the same dictionary for the
+    # whole compilation -- it is bound once, in __init__, and handed to the
+    # transformer; no emitter may rebind it
+    comp = repo.cls(COMP + "Compiler")
+    binds = []
+    for name, m in sorted(comp.methods.items()):
+        for n in ast.walk(m.node):
+            tgts = []
+            if isinstance(n, ast.Assign):
+                tgts = n.targets
+            elif isinstance(n, (ast.AugAssign, ast.AnnAssign)):
+                tgts = [n.target]
+            elif isinstance(n, ast.Delete):
+                tgts = n.targets
+            for t in tgts:
+                for x in ast.walk(t):
+                    if isinstance(x, ast.Attribute) and \
+                            x.attr == "_expression_cache" and \
+                            not isinstance(x.ctx, ast.Load):
+                        binds.append((name, n.lineno))
+    init = comp.methods.get("__init__")
+    rep.check([b[0] for b in binds] == ["__init__"], "R04.4",
+              COMP + "Compiler", "the expression cache is bound exactly once "
+              "(in __init__): stores by visit_Cache and lookups by the "
+              "expression transformer use one dictionary",
+              construct="cache-single-binding", detail=str(binds))
+    passed = init is not None and any(
+        isinstance(n, ast.Call) and src(n.func) == "ExpressionTransform"
+        and any(src(a) == "self._expression_cache"
+                for a in list(n.args) + [k.value for k in n.keywords])
+        for n in ast.walk(init.node))
+    rep.check(passed, "R04.4", COMP + "Compiler.__init__", "that dictionary "
+              "is the one handed to the expression transformer",
+              construct="cache-shared")
 
 
 def _own_exprs(repo, rep):
